@@ -283,10 +283,15 @@ func decodeValueOnce(dec valueDecoder, param string, sm *openapi3.SerializationM
 		var err error
 		for _, sr := range schema.Value.AllOf {
 			var f bool
-			value, f, err = decodeValueOnce(dec, param, sm, sr, required, decoding)
+			var v any
+			v, f, err = decodeValueOnce(dec, param, sm, sr, required, decoding)
 			found = found || f
-			if value == nil || err != nil {
-				break
+			if err != nil {
+				return nil, found, err
+			}
+			// a member without a type (only constraints) says nothing about how to read the text
+			if v != nil {
+				value = v
 			}
 		}
 		return value, found, err
